@@ -944,15 +944,61 @@ def rule_T4(ctx) -> None:
     else:
         ctx.refuted("T4", "dump:map-entry-numbering", f"{sorted(seen)}", mod.loc(dump),
                     f"map entries are written as (number, map_types index, part) = {sorted(seen)}; expected {sorted(want)}", "bytes(M(m={1: 2})) parsed by google.protobuf")
-    # Entry dataclass in ProtoClassMetadata._get_cls_by_field
-    fn = mod.func("ProtoClassMetadata._get_cls_by_field")
-    ctx.analysed("ProtoClassMetadata._get_cls_by_field")
+    # Entry dataclass: built somewhere in the class metadata (ProtoClassMetadata._get_cls_by_field, a helper of it, or the constructor)
+    fn = mod.func("ProtoClassMetadata._get_cls_by_field") if mod.has("ProtoClassMetadata._get_cls_by_field") else mod.func("ProtoClassMetadata.__init__")
     found = set()
-    # the Entry class may be built in a helper of the metadata class that _get_cls_by_field calls
-    scope = [fn]
-    for c_ in ast.walk(fn):
-        if isinstance(c_, ast.Call) and isinstance(c_.func, ast.Attribute) and mod.has(f"ProtoClassMetadata.{c_.func.attr}") and mod.func(f"ProtoClassMetadata.{c_.func.attr}") not in scope:
-            scope.append(mod.func(f"ProtoClassMetadata.{c_.func.attr}"))
+    scope = [f_ for ms_ in mod.methods("ProtoClassMetadata").values() for f_ in ms_]
+    scope = [mod.func(f"ProtoClassMetadata.{f_.name}") for f_ in scope]
+    for f_ in scope:
+        ctx.analysed(f"ProtoClassMetadata.{f_.name}")
+    import copy as _copy
+
+    def _unroll(it):
+        """the elements (as syntax) of an iterable written out from constants: a display, enumerate(..), zip(.., X.map_types)"""
+        if isinstance(it, (ast.Tuple, ast.List)):
+            return list(it.elts)
+        if isinstance(it, ast.Call) and isinstance(it.func, ast.Name) and not it.keywords:
+            if it.func.id == "enumerate" and len(it.args) == 1:
+                xs = _unroll(it.args[0])
+                return None if xs is None else [ast.Tuple([ast.Constant(k_), x_], ast.Load()) for k_, x_ in enumerate(xs)]
+            if it.func.id == "zip" and len(it.args) == 2:
+                a_, b_ = _unroll(it.args[0]), _unroll(it.args[1])
+                if a_ is None and b_ is None:
+                    return None
+                n_ = len(a_ if a_ is not None else b_)
+                if a_ is None:
+                    a_ = [ast.Subscript(it.args[0], ast.Constant(k_), ast.Load()) for k_ in range(n_)] if isinstance(it.args[0], ast.Attribute) and it.args[0].attr == "map_types" else None
+                if b_ is None:
+                    b_ = [ast.Subscript(it.args[1], ast.Constant(k_), ast.Load()) for k_ in range(n_)] if isinstance(it.args[1], ast.Attribute) and it.args[1].attr == "map_types" else None
+                if a_ is None or b_ is None or len(a_) != len(b_):
+                    return None
+                return [ast.Tuple([x_, y_], ast.Load()) for x_, y_ in zip(a_, b_)]
+        return None
+
+    def _bind(t_, v_, env):
+        if isinstance(t_, ast.Name):
+            env[t_.id] = v_
+            return True
+        if isinstance(t_, (ast.Tuple, ast.List)) and isinstance(v_, (ast.Tuple, ast.List)) and len(t_.elts) == len(v_.elts):
+            return all(_bind(a_, b_, env) for a_, b_ in zip(t_.elts, v_.elts))
+        return False
+
+    class _Sub(ast.NodeTransformer):
+        def __init__(self, env):
+            self.env = env
+
+        def visit_Name(self, n_):
+            return _copy.deepcopy(self.env[n_.id]) if n_.id in self.env and isinstance(n_.ctx, ast.Load) else n_
+
+        def visit_BinOp(self, n_):
+            self.generic_visit(n_)
+            if isinstance(n_.left, ast.Constant) and isinstance(n_.right, ast.Constant) and isinstance(n_.left.value, int) and isinstance(n_.right.value, int):
+                if isinstance(n_.op, ast.Add):
+                    return ast.Constant(n_.left.value + n_.right.value)
+                if isinstance(n_.op, ast.Sub):
+                    return ast.Constant(n_.left.value - n_.right.value)
+            return n_
+
     for f_ in scope:
         # locals bound by unpacking the pair of map types: `key_type, value_type = meta.map_types`
         unpacked = {}
@@ -961,7 +1007,19 @@ def rule_T4(ctx) -> None:
                 for k_, e_ in enumerate(a_.targets[0].elts):
                     if isinstance(e_, ast.Name):
                         unpacked[e_.id] = k_
-        for n in ast.walk(f_):
+        triples = [n for n in ast.walk(f_) if isinstance(n, ast.Tuple) and len(n.elts) == 3 and not any(
+            isinstance(c_, (ast.ListComp, ast.GeneratorExp)) and c_.elt is n for c_ in ast.walk(f_))]
+        for c_ in ast.walk(f_):
+            if isinstance(c_, (ast.ListComp, ast.GeneratorExp)) and isinstance(c_.elt, ast.Tuple) and len(c_.elt.elts) == 3 and len(c_.generators) == 1 and not c_.generators[0].ifs:
+                xs = _unroll(c_.generators[0].iter)
+                if xs is None:
+                    triples.append(c_.elt)
+                    continue
+                for x_ in xs:
+                    env_ = {}
+                    if _bind(c_.generators[0].target, x_, env_):
+                        triples.append(_Sub(env_).visit(_copy.deepcopy(c_.elt)))
+        for n in triples:
             if isinstance(n, ast.Tuple) and len(n.elts) == 3 and isinstance(n.elts[0], ast.Constant) and isinstance(n.elts[2], ast.Call) \
                     and ast.unparse(n.elts[2].func) == "dataclass_field" and len(n.elts[2].args) >= 2:
                 c = n.elts[2]
